@@ -1,0 +1,77 @@
+// SPDX-License-Identifier: BSL-1.0
+
+#ifndef TETL_STRINGS_STRTO_INTEGER_HPP
+#define TETL_STRINGS_STRTO_INTEGER_HPP
+
+#include <etl/_cctype/isspace.hpp>
+#include <etl/_concepts/integral.hpp>
+#include <etl/_concepts/signed_integral.hpp>
+#include <etl/_cstddef/size_t.hpp>
+#include <etl/_limits/numeric_limits.hpp>
+#include <etl/_string_view/basic_string_view.hpp>
+#include <etl/_strings/to_integer.hpp>
+#include <etl/_type_traits/make_unsigned.hpp>
+
+namespace etl::strings::detail {
+
+template <integral Int>
+struct strto_integer_result {
+    char const* end{nullptr};
+    Int value{};
+};
+
+/// \brief The conversion behind strtol, strtoul, atoi, stoi & co. (C17 7.22.1.4).
+///
+/// \details Skips white space and takes one optional sign, '+' or '-'. The digits are
+/// converted by to_integer in the unsigned type, so to_integer (and from_chars on top
+/// of it) keeps its own grammar, which has no '+'. If no conversion can be performed,
+/// end is str.data() and value is 0.
+template <integral Int>
+[[nodiscard]] constexpr auto strto_integer(string_view str, int base) noexcept -> strto_integer_result<Int>
+{
+    using UInt = make_unsigned_t<Int>;
+
+    auto const length  = str.size();
+    auto const failure = strto_integer_result<Int>{.end = str.data(), .value = Int{}};
+
+    auto pos = size_t{};
+    while (pos != length and etl::isspace(static_cast<int>(str[pos]))) {
+        ++pos;
+    }
+
+    auto negative = false;
+    if (pos != length and (str[pos] == '+' or str[pos] == '-')) {
+        negative = str[pos] == '-';
+        ++pos;
+    }
+
+    if constexpr (not signed_integral<Int>) {
+        if (negative) {
+            return failure;
+        }
+    }
+
+    constexpr auto options = to_integer_options{.skip_whitespace = false, .check_overflow = true};
+    auto const digits      = to_integer<UInt, options>(str.substr(pos), static_cast<UInt>(base));
+    if (digits.error != to_integer_error::none) {
+        return failure;
+    }
+
+    auto const magnitude = digits.value;
+    if constexpr (signed_integral<Int>) {
+        // largest magnitude: max() for a positive, max() + 1 for a negative number
+        auto const limit = static_cast<UInt>(static_cast<UInt>(numeric_limits<Int>::max()) + static_cast<UInt>(negative));
+        if (magnitude > limit) {
+            return failure;
+        }
+    }
+
+    if (negative) {
+        return {.end = digits.end, .value = static_cast<Int>(static_cast<UInt>(UInt{0} - magnitude))};
+    }
+    return {.end = digits.end, .value = static_cast<Int>(magnitude)};
+}
+
+} // namespace etl::strings::detail
+
+#endif // TETL_STRINGS_STRTO_INTEGER_HPP
